@@ -254,7 +254,12 @@ add('C03', 'proof', 'Lean 4 theorems: for every size, T, step errors and measure
     'of the run-level algebra of C01 — XOR of rows = syndrome of the total error, flips cancel on the periodic axis — with the '
     'SMWPM syndrome theorems); the arrays the simulation can hand to a decoder are exactly those whose row-XOR is a syndrome '
     'in the model\'s support (with executable witnesses); tparity, measurement t-parities, the rotated-toric result '
-    'constructor (two custom values, non-zero only with success=False, single step / itp never time-like) — 20 theorems. '
+    'constructor (two custom values, non-zero only with success=False, single step / itp never time-like); the rotated-toric '
+    'success / custom_values / stage time-parities are inside the model as functions of the two matchings '
+    '(Props/C03/TParity.lean: always two bits, non-zero iff success = False; each stage parity = number of time-wrapping fused '
+    'pairs mod 2, independent of order and orientation of the mates; a single time step gives the all-zero vector and never '
+    'trips the assert; decode_ftp never raises) and tied through the real app.run_once_ftp on every rotated-toric FTP case '
+    '— 32 theorems. '
     'Not a theorem: that a perfect matching exists for every reachable array and that networkx returns one (checked per '
     'decode). Tie: recorded graphs / matchings / clusters / recoveries compared exactly with the model; run_once_ftp and direct '
     'decode_ftp on every reachable array of the smallest lattices (T<=3) judged by the verified monitor.',
